@@ -133,7 +133,7 @@ func prefixDigest(path string, n int64) (string, error) {
 	return hex.EncodeToString(h.Sum(nil)), nil
 }
 
-const callTimeout = 40 * time.Second
+const callTimeout = 60 * time.Second
 
 // RunBehaviour replays one behaviour on a fresh instance and compares after every step.
 func RunBehaviour(b *Behaviour, ks *sut.KeySet, workRoot string) (res BehResult) {
